@@ -408,6 +408,15 @@ theorem getLast?_getD_cons {α : Type} (x d : α) (l : List α) : ((x :: l).getL
     | none => simp at h
     | some v => simp
 
+theorem effCodeOK_of_validCodes (ops : List Op) (hv : ValidCodes ops) : EffCodeOK ops :=
+  fun n hw => firstStatus_valid true false ops hv n hw
+
+theorem badCode_false_iff (ops : List Op) : badCode ops = false ↔ EffCodeOK ops := by
+  unfold badCode EffCodeOK
+  cases wroteStatus ops with
+  | none => simp
+  | some n => simp
+
 /-! ### request sequences -/
 
 /-- a history-free machine answers every request of a sequence as it would answer it alone, from any state -/
